@@ -59,6 +59,9 @@ class Mismatch(Exception):
         self.what = what
 
 
+FALSY = [0]
+
+
 def make_generator(rng, kind, log):
     import xtuml
 
@@ -75,6 +78,14 @@ def make_generator(rng, kind, log):
                 v = seq[state[0]]
                 state[0] += 1
                 return v
+        if rng.random() < 0.4:
+            # a generator that is also a journal of what it handed out: its length (and so its truth value) is 0 while
+            # fresh - it is the metamodel's generator all the same
+            FALSY[0] += 1
+
+            class UserGenerator(UserGenerator):
+                def __len__(self):
+                    return max(0, state[0] - 1)
         g = UserGenerator()
         g.source, g.drawn = seq, state
     orig_next = g.next
